@@ -3646,8 +3646,13 @@ class locked_index:
     def __enter__(self) -> Index:
         """Enter context manager and lock index."""
         f = GitFile(self._path, "wb")
+        try:
+            self._index = Index(self._path)
+        except BaseException:
+            # __exit__ does not run when __enter__ raises: release the lock.
+            f.abort()
+            raise
         self._file = f
-        self._index = Index(self._path)
         return self._index
 
     def __exit__(
@@ -3663,7 +3668,9 @@ class locked_index:
         try:
             f = SHA1Writer(self._file)
             write_index_dict(f, self._index._byname)
-        except BaseException:
-            self._file.abort()
-        else:
             f.close()
+        except BaseException:
+            # A failed update releases the lock, leaves the old index in
+            # place and is reported to the caller.
+            self._file.abort()
+            raise
